@@ -8,6 +8,6 @@ From Coq Require Import List NArith ZArith Bool.
 Import ListNotations.
 Open Scope list_scope.
 Definition c := $LINE.
-Eval vm_compute in (match c with C01Case f p e i => (perfect_model f p e, eval_engine f p e, i, topo_order p, levels p) end).
+Eval vm_compute in (match c with C01Case f p e i _ => (perfect_model f p e, eval_engine f p e, i, topo_order p, levels p) end).
 EOT
 coqc -noglob -Q /verif/coq IL /tmp/dbg_$$.v; rm -f /tmp/dbg_$$.*
